@@ -820,4 +820,120 @@ theorem allinv_reach (progs : Fin n → List Op) (hr : Real progs) (s : St n) (h
   | init => exact allinv_init progs hr
   | step s s' _ hs ih => exact allinv_step s s' hs ih
 
+/-! ### real time: the linearization order respects "returned before invoked" -/
+
+@[simp] theorem entry_ne_idle (op : Op) : (entry op = Pc.idle) = False := by cases op <;> simp [entry]
+
+theorem lin_mono (s s' : St n) (t : Fin n) (b : Bool) (h : next0 s t b = some s') : ∃ x, s'.lin = s.lin ++ x := by
+  step_cases h
+  all_goals simp only [setT, fin]
+  all_goals (first | exact ⟨_, rfl⟩ | exact ⟨[], (List.append_nil _).symm⟩)
+
+/-- how one step changes the timing ghosts: other threads keep theirs; the stepping thread starts an operation (samples the clock
+    and the length of `lin`), finishes one (a record with its invocation samples and the current ones), or continues -/
+theorem timing_frame (s s' : St n) (t : Fin n) (b : Bool) (h : next0 s t b = some s') :
+    (∀ u, u ≠ t → (s'.thr u).invAt = (s.thr u).invAt ∧ (s'.thr u).invLen = (s.thr u).invLen ∧
+      ((s'.thr u).pc = .idle ↔ (s.thr u).pc = .idle)) ∧
+    (((s.thr t).pc = .idle ∧ (s'.thr t).pc ≠ .idle ∧ (s'.thr t).invAt = s.clock ∧ (s'.thr t).invLen = s.lin.length ∧
+        s'.done = s.done ∧ s'.lin = s.lin) ∨
+     ((s.thr t).pc ≠ .idle ∧ (s'.thr t).pc = .idle ∧ ∃ reply exp, s'.done = s.done ++
+        [⟨t, (s.thr t).k, (s.thr t).cur, reply, exp, (s.thr t).invAt, (s.thr t).invLen, s.clock, s'.lin.length⟩]) ∨
+     ((s.thr t).pc ≠ .idle ∧ (s'.thr t).pc ≠ .idle ∧ (s'.thr t).invAt = (s.thr t).invAt ∧ (s'.thr t).invLen = (s.thr t).invLen ∧
+        s'.done = s.done)) := by
+  step_cases h
+  all_goals refine ⟨fun u hu => ?_, ?_⟩
+  all_goals (try (simp [setT, fin, upd, hu]; done))
+  all_goals (first
+    | (left; simp [*, setT, fin, upd]; done)
+    | (right; right; simp [*, setT, fin, upd]; done)
+    | (right; left; refine ⟨by simp [*], by simp [setT, fin, upd], ?_⟩; simp only [setT, fin]; exact ⟨_, _, rfl⟩)
+    | skip)
+  all_goals trace_state
+
+structure TInv (s : St n) : Prop where
+  t1 : ∀ u, (s.thr u).pc ≠ .idle → (s.thr u).invAt < s.clock
+  t2 : ∀ r ∈ s.done, r.retAt < s.clock ∧ r.invAt < s.clock ∧ r.retLen ≤ s.lin.length
+  t3 : ∀ r ∈ s.done, ∀ u, (s.thr u).pc ≠ .idle → r.retAt ≤ (s.thr u).invAt → r.retLen ≤ (s.thr u).invLen
+  t4 : ∀ r1 ∈ s.done, ∀ r2 ∈ s.done, r1.retAt ≤ r2.invAt → r1.retLen ≤ r2.invLen
+
+theorem tinv_next (s s' : St n) (t : Fin n) (b : Bool) (h : next s t b = some s') (T : TInv s) : TInv s' := by
+  obtain ⟨s1, h0, rfl⟩ := next_eq s s' t b h
+  obtain ⟨x, hx⟩ := lin_mono s s1 t b h0
+  obtain ⟨F1, F2⟩ := timing_frame s s1 t b h0
+  have hlen : s.lin.length ≤ s1.lin.length := by rw [hx, List.length_append]; exact Nat.le_add_right _ _
+  rcases F2 with ⟨p0, p1, a1, a2, d, _⟩ | ⟨p0, p1, reply, exp, d⟩ | ⟨p0, p1, a1, a2, d⟩
+  · refine ⟨fun u hu => ?_, fun r hr => ?_, fun r hr u hu hle => ?_, fun r1 h1 r2 h2 => ?_⟩
+    · show (s1.thr u).invAt < s.clock + 1
+      by_cases e : u = t
+      · subst e; omega
+      · have := T.t1 u (fun hh => hu ((F1 u e).2.2.2 hh)); rw [(F1 u e).1]; omega
+    · show r.retAt < s.clock + 1 ∧ r.invAt < s.clock + 1 ∧ r.retLen ≤ s1.lin.length
+      rw [d] at hr
+      have := T.t2 r hr; omega
+    · show r.retLen ≤ (s1.thr u).invLen
+      rw [d] at hr
+      by_cases e : u = t
+      · subst e; rw [a2]; exact (T.t2 r hr).2.2
+      · have h3 := T.t3 r hr u (fun hh => hu ((F1 u e).2.2.2 hh))
+        rw [(F1 u e).2.1]; apply h3
+        have : (s1.thr u).invAt = (s.thr u).invAt := (F1 u e).1
+        rw [← this]; exact hle
+    · rw [d] at h1 h2; exact T.t4 r1 h1 r2 h2
+  · have ht1 := T.t1 t p0
+    refine ⟨fun u hu => ?_, fun r hr => ?_, fun r hr u hu hle => ?_, fun r1 h1 r2 h2 hle => ?_⟩
+    · show (s1.thr u).invAt < s.clock + 1
+      by_cases e : u = t
+      · subst e; exact absurd p1 hu
+      · have := T.t1 u (fun hh => hu ((F1 u e).2.2.2 hh)); rw [(F1 u e).1]; omega
+    · show r.retAt < s.clock + 1 ∧ r.invAt < s.clock + 1 ∧ r.retLen ≤ s1.lin.length
+      rw [d, List.mem_append] at hr
+      rcases hr with hr | hr
+      · have := T.t2 r hr; omega
+      · simp only [List.mem_singleton] at hr; subst hr; simp only; omega
+    · show r.retLen ≤ (s1.thr u).invLen
+      by_cases e : u = t
+      · subst e; exact absurd p1 hu
+      · have hpu : (s.thr u).pc ≠ .idle := fun hh => hu ((F1 u e).2.2.2 hh)
+        have ea : (s1.thr u).invAt = (s.thr u).invAt := (F1 u e).1
+        rw [d, List.mem_append] at hr
+        rcases hr with hr | hr
+        · rw [(F1 u e).2.1]; exact T.t3 r hr u hpu (by rw [← ea]; exact hle)
+        · simp only [List.mem_singleton] at hr; subst hr
+          have := T.t1 u hpu
+          simp only at hle; omega
+    · rw [d, List.mem_append] at h1 h2
+      rcases h1 with h1 | h1 <;> rcases h2 with h2 | h2
+      · exact T.t4 r1 h1 r2 h2 hle
+      · simp only [List.mem_singleton] at h2; subst h2
+        exact T.t3 r1 h1 t p0 hle
+      · simp only [List.mem_singleton] at h1; subst h1
+        have := (T.t2 r2 h2).2.1
+        simp only at hle; omega
+      · simp only [List.mem_singleton] at h1 h2; subst h1 h2
+        simp only at hle; omega
+  · refine ⟨fun u hu => ?_, fun r hr => ?_, fun r hr u hu hle => ?_, fun r1 h1 r2 h2 => ?_⟩
+    · show (s1.thr u).invAt < s.clock + 1
+      by_cases e : u = t
+      · subst e; have := T.t1 u p0; omega
+      · have := T.t1 u (fun hh => hu ((F1 u e).2.2.2 hh)); rw [(F1 u e).1]; omega
+    · show r.retAt < s.clock + 1 ∧ r.invAt < s.clock + 1 ∧ r.retLen ≤ s1.lin.length
+      rw [d] at hr
+      have := T.t2 r hr; omega
+    · show r.retLen ≤ (s1.thr u).invLen
+      rw [d] at hr
+      by_cases e : u = t
+      · subst e; rw [a2]; exact T.t3 r hr u p0 (by rw [← a1]; exact hle)
+      · have ea : (s1.thr u).invAt = (s.thr u).invAt := (F1 u e).1
+        rw [(F1 u e).2.1]
+        exact T.t3 r hr u (fun hh => hu ((F1 u e).2.2.2 hh)) (by rw [← ea]; exact hle)
+    · rw [d] at h1 h2; exact T.t4 r1 h1 r2 h2
+
+theorem tinv_reach (progs : Fin n → List Op) (s : St n) (h : Reach progs s) : TInv s := by
+  induction h with
+  | init => refine ⟨?_, ?_, ?_, ?_⟩ <;> simp [init]
+  | step s s' _ hs ih =>
+    cases hs with
+    | thr _ t b h => exact tinv_next s s' t b h ih
+    | die c => exact ⟨ih.t1, ih.t2, ih.t3, ih.t4⟩
+
 end PSC
